@@ -118,7 +118,8 @@ def gen(rng, tier):
             # to the per-prefix NXDOMAIN / error stream like any other: never keyed by the wildcard
             k1, k2 = rng.choice([("g" + rng.choice(["q", "zz"]), "x" + rng.choice(["q", "a"])), ("x" + rng.choice(["q", "a"]), "g" + rng.choice(["q", "zz"])),
                                  ("h" + rng.choice(["q", "zz"]), "r" + rng.choice(["q", "a"])), ("r" + rng.choice(["q", "a"]), "h" + rng.choice(["q", "zz"])),
-                                 ("g" + "q", "g" + "zz"), ("h" + "q", "f"), ("g" + "q", "wq"), ("h" + "q", "cq")])
+                                 ("g" + "q", "g" + "zz"), ("h" + "q", "f"), ("g" + "q", "wq"), ("h" + "q", "cq"),
+                                 ("u", "rq"), ("f", "u"), ("u", "u"), ("u", "va"), ("na", "u")])
         tr = lambda: "udp" if rng.random() < 0.9 else "tcp"
         e1 = 0 if k1[0] == "b" else rng.choice([0, 1])
         e2 = 0 if k2[0] == "b" else rng.choice([0, 1])
